@@ -67,7 +67,7 @@ func RunVariants(seed uint64, nCfg, perCfg int, o Opts, mk func(r *rng.R, cfg Co
 		baseCases := make([]*Case, perCfg)
 		cfgCopy := cfg
 		for i, rq := range reqs {
-			baseCases[i] = addCase(&cfgCopy, cfgLine, rq, realCont{cont})
+			baseCases[i] = addCase(&cfgCopy, cfgLine, rq, realCont{cont, o.ViaServe})
 		}
 		for _, v := range mk(r, cfg, reqs) {
 			vc := v.Cfg
@@ -85,7 +85,7 @@ func RunVariants(seed uint64, nCfg, perCfg int, o Opts, mk func(r *rng.R, cfg Co
 				if rq == nil {
 					continue
 				}
-				b := addCase(&vc, vLine, *rq, realCont{vcont})
+				b := addCase(&vc, vLine, *rq, realCont{vcont, o.ViaServe})
 				pends = append(pends, pend{v.Name, baseCases[i], b})
 			}
 		}
@@ -146,10 +146,13 @@ func RunVariants(seed uint64, nCfg, perCfg int, o Opts, mk func(r *rng.R, cfg Co
 	return out, nil
 }
 
-type realCont struct{ c interface{} }
+type realCont struct {
+	c        interface{}
+	viaServe bool
+}
 
 func (rc realCont) dispatch(r Req) Outcome {
-	return Dispatch(rc.c.(contT), r)
+	return DispatchVia(rc.c.(contT), r, rc.viaServe)
 }
 
 // PairSpec says how a pair property reads the variants.
@@ -165,6 +168,10 @@ type PairSpec struct {
 	// Opts: the generator options of the stream; when set together with Single, a member that
 	// disagrees with the model has its table searched for a request falsifying Single.
 	Opts *Opts
+	// NoModel: the real outcomes are compared with one another only (the model-free twin oracle): the
+	// requests went through Container.ServeHTTP, and the routing model does not describe what the
+	// ServeMux in front of the dispatcher answers by itself (redirects of unclean paths, its own 404).
+	NoModel bool
 }
 
 // CheckPairs: the two real outcomes must be the same (the property), and each must agree with the model.
@@ -221,6 +228,9 @@ func CheckPairs(run *report.Run, ps PairSpec, stream string, pairs []*PairCase) 
 			continue
 		}
 		for _, c := range []*Case{p.A, p.B} {
+			if ps.NoModel {
+				break
+			}
 			if c.RealS != c.ModelS && known == "" && dis < 3 {
 				dis++
 				run.DisagreementsChecked++
